@@ -1,19 +1,23 @@
 /-
 Line-protocol driver for the C19 model (query pipeline).
 
-  new <node> <node> ...      stage tree in preorder, node = <S|A|X|C><o|e|p|l|n><#children>
-                             (S sync / A pooled / X pooled on a stopped pool / C pooled with a
+  new <node> <node> ...      stage tree in preorder, node = <S|A|Q|X|C><o|e|p|l|n><#children>
+                             (S sync / A pooled / Q pooled, context cancelled while the task is queued /
+                             X pooled on a stopped pool / C pooled with a
                              cancelled context on a saturated pool — X and C: the pool rejects the task;
                              o ok / e error / p execution panics / l Plan() panics / n NextStages()
                              panics); runs the caller of pipeline.Execute up to its first gate
   rel <k>                    goroutine k (0 = caller of Execute, k = k-th submitted task) is parked at
                              the gate in front of a stage execution: release it and run it to its next
                              gate or to its end
+  cwin <a> <b>               a (successful pooled leaf) parks inside its Complete() hook, b is released
+                             and runs, then a goes on (the window inside completeStage)
   end                        final observation
   leaf-new | leaf-send <nil|err>     LeafExecuteContext.SendResponse
-  leafreq <node> ... | leafreq - | leafreq x    one request on the real leaf path whose stages form this tree
+  leafreq <data|meta|meta-notfound> (<node> ... | - | o | x)    one request on the real leaf path whose stages form this tree
                              (`-`: the request is refused before a pipeline exists and the task
-                             handler answers; `x`: the task handler's own pool rejects the request): the tree is run to the end (lowest runnable goroutine
+                             handler answers; `o`: a request type Process omits; `x`: the task handler's own pool rejects the
+                             request; meta-notfound: the suggest callback answers a not-found failure as an empty result): the tree is run to the end (lowest runnable goroutine
                              first — by the theorems the answer does not depend on the schedule) and
                              the responses `LeafExecuteContext.SendResponse` produces are reported
 
@@ -43,7 +47,7 @@ def parseNode (w : String) : Option (Run × Bool × Outcome × Nat) :=
   match w.toList with
   | a :: o :: k =>
     let run? : Option Run :=
-      if a = 'S' then some .inline else if a = 'A' then some .pooled
+      if a = 'S' then some .inline else if a = 'A' || a = 'Q' then some .pooled
       else if a = 'X' || a = 'C' then some .rejected else none
     let out? : Option (Bool × Outcome) :=
       if o = 'o' then some (false, .ok) else if o = 'e' then some (false, .error)
@@ -83,6 +87,15 @@ def runToGate : Nat → State → Nat → State
     | none => s
 
 def fuel : Nat := 100000
+
+/-- who answers a request: the regenerated facts about Process's return value and the pool -/
+def reqCfg : ReqCfg := ⟨Generated.C19.processReturnsPipelineErr, Generated.C19.submitRejectNotifies⟩
+
+def showResponses (rs : List Bool) : String :=
+  let shown := match rs with
+    | [] => "-"
+    | r :: _ => if r then "err" else "nil"
+  s!"responses={rs.length} resp={shown}"
 
 /-- run to the end: always the lowest-numbered goroutine that still has an instruction -/
 def runAll : Nat → State → State
@@ -134,24 +147,45 @@ def step (st : St) (ws : List String) : St × String :=
         else (st, "bad-op not-at-gate")
       | none => (st, "bad-op no-such-goroutine")
     | _, _ => (st, "bad-op")
+  | ["cwin", a, b] =>
+    -- goroutine a (a successful pooled leaf stage) executes and is parked inside its Complete() hook,
+    -- i.e. in front of `track` (the hook runs under sm.mutex, so for everybody else the critical
+    -- section has not happened yet); goroutine b is released and runs to its next gate or end; then a
+    -- goes on to its end
+    match st.pipe, a.toNat?, b.toNat? with
+    | some s, some a, some b =>
+      match s.threads[a]?, s.threads[b]? with
+      | some ta, some tb =>
+        if atGate ta && atGate tb && a != b then
+          match stepAt cfg s a with
+          | some s1 =>
+            match (s1.threads[a]?).map (·.code) with
+            | some [Instr.track false] =>
+              match stepAt cfg s1 b with
+              | some s2 =>
+                let s3 := runToGate fuel s2 b
+                let s4 := runToGate fuel s3 a
+                ({ st with pipe := some s4 }, status s4)
+              | none => (st, "bad-op")
+            | _ => (st, "bad-op not-a-successful-leaf")
+          | none => (st, "bad-op")
+        else (st, "bad-op not-at-gate")
+      | _, _ => (st, "bad-op no-such-goroutine")
+    | _, _, _ => (st, "bad-op")
   | ["end"] =>
     match st.pipe with
     | some s => ({ st with pipe := none }, final s)
     | none => (st, "bad-op")
-  | ["leafreq", "-"] => (st, "responses=1 resp=err")
-  | ["leafreq", "x"] =>
-    -- the task handler's own pool rejects the request: answered only if Submit notifies the handler
-    (st, if cfg.rejectNotifies then "responses=1 resp=err" else "responses=0 resp=-")
-  | "leafreq" :: toks =>
-    match parseTree toks with
-    | some root =>
+  | ["leafreq", _, "-"] => (st, showResponses (noPipelineResponses reqCfg .refused))
+  | ["leafreq", _, "o"] => (st, showResponses (noPipelineResponses reqCfg .omitted))
+  | ["leafreq", _, "x"] => (st, showResponses (noPipelineResponses reqCfg .rejected))
+  | "leafreq" :: kind :: toks =>
+    match parseTree toks, (if kind = "data" || kind = "meta" then some false
+                            else if kind = "meta-notfound" then some true else none) with
+    | some root, some tolerated =>
       let s := runAll fuel (Pipeline.init root)
-      let rs := responses s.sh.fired
-      let shown := match rs with
-        | [] => "-"
-        | r :: _ => if r then "err" else "nil"
-      (st, s!"responses={rs.length} resp={shown}")
-    | none => (st, "bad-op")
+      (st, showResponses (runResponses reqCfg tolerated s))
+    | _, _ => (st, "bad-op")
   | ["leaf-new"] => ({ st with leaf := Leaf.init }, "ok")
   | ["leaf-send", e] =>
     if e = "nil" || e = "err" then
